@@ -710,6 +710,89 @@ def fam_chain(rng, n, max_pkts=6, all_partitions=False):
     return out
 
 
+def fam_chain_big_tail(rng, sizes=(300_000,)):
+    """C11 / C02: a buffer whose FIRST packet is followed by several hundred kilobytes of further packets (any quantity derived from
+    "bytes left in the buffer" — a clamp, a pre-size, an integer narrowed to u16/u32 — sees values it never sees on a single
+    datagram): first packet of every version (V9 and IPFIX with a template and its data), then V5/V7 packets of 30 records until the
+    size is reached, then a data packet that needs the template of the first; joined in one call vs one packet per call"""
+    out = []
+    for size in sizes:
+        for first in (9, 10, 5):
+            ex = Exporter(rng, lossless=True, simple_ipfix=True)
+            if first == 5:
+                head = [msg_v5(rng, 2)]
+                tail_end = [msg_v7(rng, 1)]
+            else:
+                head = rand_packets(rng, ex, 1, versions=(first,))
+                tail_end = rand_packets(rng, ex, 1, versions=(first,))
+            fill, total = [], 0
+            while total < size:
+                v = rng.choice([5, 7])
+                fill.append(msg_v5(rng, 30) if v == 5 else msg_v7(rng, 30))
+                total += (24 + 48 * 30) if v == 5 else (24 + 52 * 30)
+            msgs = head + fill + tail_end
+            ops = [op_new(0), op_parse(0, msgs=msgs, want=[]), op_new(1)]
+            for m in msgs:
+                ops.append(op_parse(1, msgs=[m], want=[]))
+            ops.append({"op": "assert_chain", "a": 0, "b": 1})
+            for o in ops:
+                if o.get("op") == "parse":
+                    o["nospec"] = True
+            out.append(("chain-big-tail-%d-%dk" % (first, size // 1000), ops))
+    return out
+
+
+def fam_dup_in_set(rng, n):
+    """C06 / C04 / C05: ONE template (or options-template) flowset / set that defines the same id more than once — the last
+    definition wins, whatever the cache held before (a definition equal to the cached one after a different one in the same set,
+    a different one after an equal one, three in a row); then data for that id, in the same packet and in a later call"""
+    out = []
+    for _ in range(n):
+        proto = rng.choice([9, 10])
+        tid = rng.choice([256, 257, 300, 1024])
+        def tmpl(lens):
+            if proto == 9:
+                return {"id": tid, "fieldCount": len(lens), "fields": [{"typ": t, "len": l} for t, l in lens]}
+            return {"id": tid, "fields": [{"typ": t, "len": l, "ent": None} for t, l in lens]}
+        A = [(1, 4), (2, 4)]
+        B = rng.choice([[(1, 4)], [(1, 2), (2, 2), (10, 2)], [(2, 8)], [(1, 4), (2, 2)]])
+        C = rng.choice([[(10, 4)], [(1, 1)], A])
+        order = rng.choice([[B, A], [A, B], [A, B, A], [B, C, A], [B, B], [A, A, B], [C, B, A]])
+        k = [1]
+        def pkt(sets):
+            k[0] += 1
+            if proto == 9:
+                return {"v9": {"m": {"count": len(sets), "sysUpTime": k[0], "unixSecs": k[0], "seq": k[0], "sourceId": 1, "sets": sets}}}
+            return {"ipfix": {"m": {"exportTime": k[0], "seq": k[0], "odid": 1, "sets": sets}}}
+        def data(lens, nrec):
+            recs = []
+            for _ in range(nrec):
+                if proto == 9:
+                    recs.append([hx(rbytes(rng, l)) for _, l in lens])
+                else:
+                    recs.append([{"content": hx(rbytes(rng, l)), "form": "fixed"} for _, l in lens])
+            return {"data": {"id": tid, "recs": recs, "pad": ""}}
+        final = order[-1]
+        ops = [op_new(0)]
+        if rng.random() < 0.8:
+            # the cache already holds A (or B) for the id
+            pre = rng.choice([A, B])
+            ops.append(op_parse(0, msgs=[pkt([{"templates": {"ts": [tmpl(pre)], "pad": ""}}, data(pre, 1)])]))
+        if proto == 9:
+            dup = [{"templates": {"ts": [tmpl(x) for x in order], "pad": ""}}]
+        else:
+            # IPFIX: the crate reads ONE template record per set (a recorded finding of C05), so the repeated definitions are
+            # consecutive sets of one message
+            dup = [{"templates": {"ts": [tmpl(x)], "pad": ""}} for x in order]
+        if rng.random() < 0.5:
+            ops.append(op_parse(0, msgs=[pkt(dup + [data(final, 2)])]))
+        else:
+            ops.append(op_parse(0, msgs=[pkt(dup)]))
+        ops.append(op_parse(0, msgs=[pkt([data(final, rng.choice([1, 3]))])]))
+        out.append(("dup-in-set-%d" % proto, ops))
+    return out
+
+
 def fam_chain_many_templates(rng, sizes=(1100,)):
     """C11 / C06: ONE packet that announces more than a thousand templates (ids 256..), then data for the first, a middle and the last
     of them — joined in one call on parser 0, one packet per call on parser 1 (any bookkeeping keyed to the cache SIZE that runs per
